@@ -772,6 +772,10 @@ class TE:
             return env[e.id]
         if e.id in BUILTINS:
             return TypeRef("builtins." + e.id)
+        if e.id == "__name__":
+            return mod
+        if e.id == "__path__" and self.repo.is_package(mod):
+            return Record(TypeRef("builtins.__path__"), (mod,), {})
         raise AnalysisError(f"{mod}:{e.lineno} unbound name {e.id}")
 
     def e_Attribute(self, e, env, mod):
@@ -977,6 +981,11 @@ class TE:
         for v in e.values:
             if isinstance(v, ast.Constant):
                 parts.append(str(v.value))
+            elif isinstance(v, ast.FormattedValue) and v.format_spec is None and v.conversion == -1:
+                x = self.ev(v.value, env, mod)
+                if isinstance(x, bool) or not isinstance(x, (str, int)):
+                    raise AnalysisError(f"{mod}:{e.lineno} f-string over {x!r:.40}")
+                parts.append(str(x))
             else:
                 raise AnalysisError(f"{mod}:{e.lineno} f-string")
         return "".join(parts)
@@ -1080,6 +1089,19 @@ class TE:
             return f(*args, **kw)
         if isinstance(f, TypeRef) and f.name in ("builtins.filter", "builtins.map") and not kw:
             return self.lib_call(f.name, args, mod, e)
+        if isinstance(f, TypeRef) and f.name == "builtins.getattr" and len(args) in (2, 3) and isinstance(args[1], str) and not kw:
+            try:
+                return self.getattr(args[0], args[1], mod, e)
+            except AnalysisError:
+                if len(args) == 3:
+                    return args[2]
+                raise
+        if isinstance(f, TypeRef) and f.name == "builtins.next" and 1 <= len(args) <= 2 and isinstance(args[0], (list, tuple)) and not kw:
+            if args[0]:
+                return args[0][0]  # (iterators are lists here: the first element of a fresh one)
+            if len(args) == 2:
+                return args[1]
+            raise AnalysisError(f"{mod}:{e.lineno} next() of an empty iterator")
         if isinstance(f, TypeRef) and f.name.startswith("builtins."):
             n = f.short
             if n == "isinstance":
@@ -1137,6 +1159,22 @@ class TE:
                 except Exception as ex:
                     raise AnalysisError(f"{mod}:{e.lineno} {f.name}(): {ex}")
             raise AnalysisError(f"{mod}:{e.lineno} builtin {n} not modelled")
+        if isinstance(f, TypeRef) and f.name == "pkgutil.iter_modules" and len(args) == 1 and isinstance(args[0], Record) \
+                and args[0].ctor == TypeRef("builtins.__path__"):
+            # the sub-modules of a package of the repository, in the order the file finder lists them (sorted by name)
+            pkg = args[0].args[0]
+            found = {}
+            for rel in self.repo.files():
+                m_ = self.repo.modname(rel)
+                if m_.startswith(pkg + ".") and "." not in m_[len(pkg) + 1:]:
+                    found[m_[len(pkg) + 1:]] = self.repo.is_package(m_)
+            return [Record(TypeRef("pkgutil.ModuleInfo"), (), {"name": n_, "ispkg": found[n_]}) for n_ in sorted(found)]
+        if isinstance(f, TypeRef) and f.name in ("re.fullmatch", "re.match", "re.search") and len(args) == 2 and all(isinstance(a, str) for a in args) and not kw:
+            import re as _re
+
+            return getattr(_re, f.name[3:])(*args)
+        if isinstance(f, TypeRef) and f.name == "importlib.import_module" and len(args) == 1 and isinstance(args[0], str) and not kw:
+            return ModuleRef(args[0]) if self.repo.is_module(args[0]) else TypeRef(args[0])
         if isinstance(f, TypeRef) and f.name in ("struct.Struct", "struct.calcsize") and all(isinstance(a, (str, bytes)) for a in args) and not kw:
             import struct as _struct  # trusted base, modelled by itself: a precompiled format is a constant of the module
 
